@@ -1,2 +1,3 @@
 import MpdSpec.Names
 import MpdSpec.Tokenizer
+import MpdSpec.FilterParse
